@@ -29,11 +29,23 @@ def run(ctx):  # noqa: C901
 
     # ---- delegation ------------------------------------------------------------------------------
     rets, N = return_terms(m, dd, inline=True)
-    ok = False
+    ok, other = False, []
     for rn, facts, t in rets:
         a = dict(t[3]).get("phi") if t[0] == "call" and str(t[1]).endswith("completely_bounded_trace_norm") else None
-        ok = a in (("+", tuple(sorted([("n", "choi_1"), ("neg", ("n", "choi_2"))], key=repr))), ("+", tuple(sorted([("n", "choi_2"), ("neg", ("n", "choi_1"))], key=repr))))
-    ctx.ob("R-PRED", dd, "diamond distance == cb trace norm of the Choi difference", ok, "completely_bounded_trace_norm(J1 - J2)" if ok else "delegation changed")
+        this = a in (("+", tuple(sorted([("n", "choi_1"), ("neg", ("n", "choi_2"))], key=repr))), ("+", tuple(sorted([("n", "choi_2"), ("neg", ("n", "choi_1"))], key=repr))))
+        if this:
+            ok = True
+        elif a is not None:
+            ok, other = False, []
+            break
+        else:
+            other.append(rn)
+    # a return that computes the distance some other way (a closed-form shortcut) cannot be related to the definition by this
+    # analysis: it is neither accepted nor reported as wrong -- the obligation becomes undecided (exit 2)
+    ctx.ob("R-PRED", dd, "diamond distance == cb trace norm of the Choi difference", (None if other and ok else ok),
+           "completely_bounded_trace_norm(J1 - J2)" if ok and not other else
+           (f"`{unparse(other[0])[:70]}` (line {other[0].lineno}) returns a value not obtained from completely_bounded_trace_norm(J1 - J2): "
+            "a shortcut formula is not decidable here and has to be re-confirmed by review") if other and ok else "delegation changed", other[0] if other else None)
     rets, N = return_terms(m, cs, inline=True)
     ok = False
     for rn, facts, t in rets:
@@ -185,6 +197,18 @@ def run(ctx):  # noqa: C901
                            "(log2 of the Choi size is its square root only for sizes 4 and 16)", pt[0] if False else None, required=sm is not None)
                 ok1 = d.get("sys") == ("list", ("c", 1))
                 ctx.ob("R-BASE", cf, "the output factor (subsystem 1, 0-based) is traced", ok1, "partial_trace(Q, [1], [d, d])" if ok1 else f"sys {show(d.get('sys'))}")
+            else:
+                # cvxpy's own atom: partial_trace(expr, dims, axis=0) traces out subsystem `axis`
+                cpt = [s for s in subterms(hi) if isinstance(s, tuple) and s and s[0] == "call" and s[1] in ("cvxpy.partial_trace", "cvxpy.atoms.affine.partial_trace.partial_trace")]
+                if cpt:
+                    kw = dict(cpt[0][3])
+                    ax = kw.get("axis", cpt[0][2][2] if len(cpt[0][2]) > 2 else ("c", 0))
+                    ok1 = ax == ("c", 1)
+                    ctx.ob("R-BASE", cf, "the output factor (subsystem 1, 0-based) is traced", ok1, "cvxpy.partial_trace(Q, [d, d], axis=1)" if ok1 else
+                           f"cvxpy.partial_trace(..., axis={show(ax)}) traces out subsystem {show(ax)} (its default is 0, the INPUT factor): the constraint becomes lam*I <= Re Tr_in Q, "
+                           "which changes the value for every non-unital channel")
+                else:
+                    ctx.ob("R-BASE", cf, "the output factor (subsystem 1, 0-based) is traced", None, "no partial trace of Q found in the bounded operator")
         ctx.ob("R-SDP", cf, "lambda I <= Re Tr_out Q in the Loewner order (Re = Hermitian part)", okl, whyl, lin[0].node if lin and hasattr(lin[0], "node") else None)
         d = sk.dangling()
         ctx.ob("R-SDP", cf, "S1 every constraint reaches the problem", not d, "ok" if not d else "dropped")
